@@ -285,7 +285,7 @@ func (d *LexDriver) Run(ops []lexOp) ([]lexRes, string) {
 func probesOf(g *LexGrammar) [][]rune {
 	var ps [][]rune
 	for _, a := range g.Atoms {
-		ps = append(ps, a.reps())
+		ps = append(ps, a.probes())
 	}
 	return ps
 }
